@@ -422,16 +422,18 @@ Available join types:
             object_id = uuid4()
         _object_id = str(object_id)
 
-        # transform to pa.Table for better parquet support
-        if not type(self.data) == pa.Table:
-            _from_fw = type(self.data)
+        # transform to pa.Table for better parquet support (a copy: self.data stays in the framework's own format,
+        # later steps of this compute framework still calculate and merge on it)
+        data = self.data
+        if not type(data) == pa.Table:
+            _from_fw = type(data)
             _to_fw = pa.Table
 
             transformer_cls = self.transformer.transformer_map.get((_from_fw, _to_fw), None)
             if transformer_cls is not None:
-                self.data = transformer_cls.transform(_from_fw, _to_fw, self.data, self.framework_connection_object)
+                data = transformer_cls.transform(_from_fw, _to_fw, data, self.framework_connection_object)
 
-        FlightServer.upload_table(location, self.data, _object_id)
+        FlightServer.upload_table(location, data, _object_id)
         self.object_ids.append(_object_id)
         return _object_id
 
